@@ -757,9 +757,12 @@ pub fn main() {
     let stats: Mutex<BTreeMap<String, u64>> = Mutex::new(BTreeMap::new());
     let samples: Mutex<Vec<Value>> = Mutex::new(vec![]);
     let distinct: Mutex<std::collections::HashSet<u64>> = Mutex::new(Default::default());
+    let wd = Watchdog::start(threads, outp.clone());
+    let widx = AtomicUsize::new(0);
     std::thread::scope(|s| {
         for _ in 0..threads {
             s.spawn(|| {
+                let w = widx.fetch_add(1, Ordering::Relaxed);
                 let rt = tokio::runtime::Builder::new_current_thread().enable_all().build().unwrap();
                 let mut local: BTreeMap<String, u64> = BTreeMap::new();
                 let mut local_distinct: Vec<u64> = vec![];
@@ -775,7 +778,9 @@ pub fn main() {
                     };
                     let nontrivial = !c.l.is_empty() && !c.r.is_empty();
                     for v in &vs {
+                        wd.enter(w, json!({"case": c.raw, "variant": v.to_json()}).to_string());
                         let o = run_variant(&rt, c, v);
+                        wd.leave(w);
                         *local.entry("evaluations".into()).or_default() += 1;
                         *local.entry(format!("op:{}", v.op)).or_default() += 1;
                         *local.entry(format!("jt:{}", c.jt_name)).or_default() += 1;
